@@ -4507,8 +4507,8 @@ Case_BaseLdurStur:
         goto InvalidInstruction;
 
       if (isign4 == ENC_OPS3(Reg, Reg, Imm) && op_data.immediate_op) {
-        // Long/narrow shifts are not validated here (only the significant operand selects the encoding).
-        if (!(inst_flags & (InstDB::kInstFlagLong | InstDB::kInstFlagNarrow)) && !check_signature(o0, o1))
+        // Long shifts (SSHLL, USHLL, ...) are not validated here (only the significant operand selects the encoding).
+        if (!(inst_flags & InstDB::kInstFlagLong) && !match_signature(o0, o1, inst_flags))
           goto InvalidInstruction;
 
         if (o2.as<Imm>().value_as<uint64_t>() > 63)
